@@ -165,6 +165,49 @@ func classifyLoop(c *Ctx, l loopInfo) (kind string, regular bool, detail string)
 			return "counted", true, "counter decreases towards a bound"
 		}
 	}
+	// rotated counted loop (`for i := range n` with a body of several blocks): the test sits in the single latch block —
+	// `i+1 < n` with i a header phi advanced by that very sum, n not computed in the loop — and leads back to the header
+	{
+		var latches []*ssa.BasicBlock
+		for _, pr := range h.Preds {
+			if l.body[pr] {
+				latches = append(latches, pr)
+			}
+		}
+		if len(latches) == 1 && len(latches[0].Instrs) > 0 && len(latches[0].Succs) == 2 && latches[0].Succs[0] == h {
+			if iff2, ok := latches[0].Instrs[len(latches[0].Instrs)-1].(*ssa.If); ok {
+				l2 := core.LitOf(iff2.Cond, true)
+				if l2.Kind == "cmp" && l2.Op == token.LSS {
+					if sum, ok := l2.X.(*ssa.BinOp); ok && sum.Op == token.ADD {
+						if k, isK := core.ConstInt(sum.Y); isK && k > 0 {
+							if ph, ok := sum.X.(*ssa.Phi); ok && ph.Block() == h {
+								adv := false
+								for _, e := range ph.Edges {
+									if e == ssa.Value(sum) {
+										adv = true
+									}
+								}
+								inv := false
+								switch y := l2.Y.(type) {
+								case *ssa.Const, *ssa.Parameter:
+									inv = true
+								case ssa.Instruction:
+									inv = !l.body[y.Block()]
+									if cl, ok := l2.Y.(*ssa.Call); ok && !inv {
+										n := core.CalleeName(cl.Common())
+										inv = n == "builtin.len" || n == "(reflect.Type).NumField" || n == "(reflect.Type).NumOut" || n == "(reflect.Type).NumIn"
+									}
+								}
+								if adv && inv {
+									return "counted", true, "counter increases towards a bound (test in the latch block)"
+								}
+							}
+						}
+					}
+				}
+			}
+		}
+	}
 	// pointer unwrapping: cond Kind()==Ptr on a header phi whose loop edge is its own Elem()
 	if lit.Kind == "cmp" && lit.Op == token.EQL {
 		if k, ok := core.ConstInt(lit.Y); ok && k == 22 {
